@@ -3,6 +3,9 @@ import concurrent.futures
 import hashlib
 import json
 import os
+import socket
+import tempfile
+import fcntl
 import shutil
 import subprocess
 import sys
@@ -90,6 +93,36 @@ def scenarios(ctx):
     out.append({"idx": i, "group": "tls-alpn-01-tacd-tcp", "git": False, "n": 2, "ident": "localhost",
                 "level": "global", "default_hostport": True})
     return auditd_c20.widen(ctx, out)
+
+
+class default_port_lock:
+    """Machine-wide lock (flock on a file created on demand) held while scenarios use the default port 5001; waits
+    until nothing listens on it (up to 120 s), else says so as a harness condition."""
+    PATH = os.path.join(tempfile.gettempdir(), ".acmed-verif-port-5001.lock")
+
+    def __init__(self, ctx):
+        self.ctx = ctx
+
+    def __enter__(self):
+        self.f = open(self.PATH, "a+")
+        fcntl.flock(self.f, fcntl.LOCK_EX)
+        t0 = time.time()
+        while time.time() - t0 < 120:
+            s = socket.socket()
+            try:
+                s.bind(("127.0.0.1", 5001))
+                s.close()
+                return self
+            except OSError:
+                s.close()
+                time.sleep(1.0)
+        self.ctx.count("harness:port-5001-occupied-by-a-foreign-process")
+        return self
+
+    def __exit__(self, *a):
+        fcntl.flock(self.f, fcntl.LOCK_UN)
+        self.f.close()
+        return False
 
 
 def run_one(sc, root, helper, tacd_dir):
@@ -298,8 +331,11 @@ def run(ctx):
         seq = [s for s in scs if s["default_hostport"]]
         with concurrent.futures.ThreadPoolExecutor(max_workers=8) as ex:
             results = list(ex.map(lambda s: run_one(s, root, helper, os.path.dirname(tacd)), par))
-        for s in seq:
-            results.append(run_one(s, root, helper, os.path.dirname(tacd)))
+        # the documented default port 5001 is one per machine: other runs of this check (another tier, an isolated
+        # copy) must not use it at the same time, and a foreign listener on it is not the code's fault
+        with default_port_lock(ctx):
+            for s in seq:
+                results.append(run_one(s, root, helper, os.path.dirname(tacd)))
         judge(ctx, auditd_c20.observe(ctx, results))
     finally:
         helper.close()
